@@ -191,7 +191,10 @@ def run(rep, tier, seed, tr_errors):
         rep.violation("direct_%d" % (abs(hash(what)) % 100000), {"kind": "counterexample", "obligation": "exports exist", "input": {"circuit": what, "problems": pr}})
     if not viol and not direct:
         for j in sorted(set(mism))[:3]:
-            rep.violation("correspondence_%d" % j, {"kind": "broken-obligation", "obligation": "correspondence:tikz_components", "input": {"circuit": by[j][1][:1500], "components": by[j][3]}}, no_input=True)
+            # the component-line model IS the specification of this clause ("one component per element ... named as the circuit
+            # names it": symbol_{label|identifier}, Ident.v, the naming proved injective in C16): an observed component list that
+            # differs from it is a failing input of the property, reported with the circuit as replay
+            rep.violation("components_%d" % j, {"kind": "counterexample", "obligation": "CircuiTikZ components named as the circuit names its elements (model tikz_components)", "input": {"circuit": by[j][1][:1500], "components": by[j][3]}})
         for si, raw in broken[:2]:
             rep.violation("shard_%d" % si, {"kind": "broken-obligation", "obligation": "cases shard did not evaluate", "log": raw}, no_input=True)
     if not thm_ok and not rep.violations:
